@@ -202,7 +202,13 @@ func runC15(c *Ctx) {
 			maxOpen = 0
 			escaped = false
 			mu.Unlock()
-			mc.SendLine(raw)
+			// the event is followed at once, in the same segment, by lines nobody handles: the receive goroutine parses
+			// them while the event's background dispatch may not have taken its copies yet
+			burst := raw + "\r\n"
+			for k := r.Intn(4); k > 0; k-- {
+				burst += fmt.Sprintf(":filler!f@f FILL f%d f%d :filler text %d\r\n", k, idx, k)
+			}
+			mc.SendBytes([]byte(burst))
 			if !s.FgMarker(mc) {
 				c.R.Inconcl(fmt.Sprintf("%s: marker not reached", Case("ev", idx)))
 				return
@@ -235,8 +241,31 @@ func runC15(c *Ctx) {
 				})
 			}
 			if len(got) != total {
-				c.R.Inconcl(fmt.Sprintf("%s: %d of %d invocations finished", Case("ev", idx), len(got), total))
-				return
+				// nothing of this client is still running? then the count is final
+				rig.WaitNoLib(WaitShort, 200)
+				mu.Lock()
+				got = append([]*c15Inv(nil), invs...)
+				mu.Unlock()
+				bad := ""
+				for _, inv := range got {
+					if inv.entryBad != "" {
+						bad = fmt.Sprintf("handler %d: %s", inv.h, inv.entryBad)
+					}
+				}
+				switch {
+				case bad != "":
+					viol("entry-differs", bad)
+				case len(got) != total:
+					viol("invocation-count", fmt.Sprintf("%d handler invocations for an event with %d registered handlers (lines mixed up between events?)", len(got), total))
+				}
+				if len(got) != total {
+					go s.Conn.Close()
+					s.Release()
+					if c.R.NumViolations() > 10 {
+						return
+					}
+					break
+				}
 			}
 			seenA := map[uintptr]int{}
 			seenT := map[uintptr]int{}
